@@ -208,6 +208,9 @@ func safeRun(pr *Property, c *Ctx) (code int) {
 		}
 	}()
 	pr.Run(c)
+	for _, f := range extraRules[pr.ID] {
+		f(c)
+	}
 	return 0
 }
 
